@@ -208,6 +208,7 @@ gen(const char *script, const char *out)
     int32 ri_open[256];
     int   nri_open = 0;
     int   lastk    = K_NONE;
+    int   last_mtag = 0; /* tag under which the last SDS / image is a vgroup member (0: not a member) */
     int32 last_id  = FAIL; /* sds id / ri id / vdata id / vgroup id */
     int32 last_vs  = FAIL;
     uint32 lonepals[16];
@@ -341,9 +342,11 @@ gen(const char *script, const char *out)
                 free(buf);
             }
             if (parent >= 0) {
-                if (Vaddtagref(vgs[parent], DFTAG_NDG, SDidtoref(id)) == FAIL)
+                /* mtag=: the tag under which the object is made a member (any tag vgroup_insert accepts) */
+                if (Vaddtagref(vgs[parent], atoi(kv(nt, tok, "mtag", "720")), SDidtoref(id)) == FAIL)
                     DIE("Vaddtagref sds");
             }
+            last_mtag = parent >= 0 ? atoi(kv(nt, tok, "mtag", "720")) : 0;
             sds_open[nsds_open++] = id;
             lastk                 = K_SDS;
             last_id               = id;
@@ -462,8 +465,9 @@ gen(const char *script, const char *out)
             if (GRwriteimage(id, start, NULL, dims, buf) == FAIL)
                 DIE("GRwriteimage");
             free(buf);
-            if (parent >= 0 && Vaddtagref(vgs[parent], DFTAG_RIG, GRidtoref(id)) == FAIL)
+            if (parent >= 0 && Vaddtagref(vgs[parent], atoi(kv(nt, tok, "mtag", "306")), GRidtoref(id)) == FAIL)
                 DIE("Vaddtagref gr");
+            last_mtag = parent >= 0 ? atoi(kv(nt, tok, "mtag", "306")) : 0;
             ri_open[nri_open++] = id;
             lastk               = K_GR;
             last_id             = id;
@@ -532,8 +536,14 @@ gen(const char *script, const char *out)
             uint16   tag = 0, ref = 0;
             int32    a;
             if (lastk == K_SDS) {
-                tag = DFTAG_NDG;
+                /* an annotation belongs to a tag/ref pair: the pair under which the SDS is known in its vgroup */
+                tag = last_mtag ? (uint16)last_mtag : DFTAG_NDG;
                 ref = (uint16)SDidtoref(last_id);
+            }
+            else if (lastk == K_GR) {
+                /* images: the raster image group or the raster image tag (atag=306|302) */
+                tag = (uint16)atoi(kv(nt, tok, "atag", "306"));
+                ref = (uint16)GRidtoref(last_id);
             }
             else if (lastk == K_VS) {
                 tag = DFTAG_VH;
@@ -771,6 +781,8 @@ dump_sds(int32 index, int depth)
     else
         printf("C data -\n");
     dump_anns(DFTAG_NDG, (uint16)SDidtoref(id));
+    dump_anns(DFTAG_SDG, (uint16)SDidtoref(id));
+    dump_anns(DFTAG_SD, (uint16)SDidtoref(id));
     printf("I empty %d rank %d bytes %ld isrec %d\n", empty, (int)rank, (long)(nel * (size_t)sz), isrec);
     printf("L comp %s %d chunk", compname(ct), compparam(ct, &ci));
     if (cflags & HDF_CHUNK)
@@ -847,6 +859,8 @@ dump_gr(int32 index, int depth)
     GRgetcompinfo(id, &ct, &ci);
     if (GRgetchunkinfo(id, &cd, &cflags) == FAIL)
         DIE("GRgetchunkinfo");
+    dump_anns(DFTAG_RIG, (uint16)GRidtoref(id));
+    dump_anns(DFTAG_RI, (uint16)GRidtoref(id));
     printf("I empty 0 rank 2 bytes %ld isrec 0\n", (long)((size_t)dims[0] * (size_t)dims[1] * (size_t)ntsize(nt)));
     printf("L comp %s %d chunk", compname(ct), compparam(ct, &ci));
     if (cflags & HDF_CHUNK)
@@ -1013,7 +1027,7 @@ dump_vg(int32 ref, int depth, int guard)
             else
                 printf("N %d dangling-sds %d\n", depth + 1, (int)r);
         }
-        else if (t == DFTAG_RIG || t == DFTAG_RI || t == DFTAG_CI || t == DFTAG_RI8 || t == DFTAG_CI8) {
+        else if (t == DFTAG_RIG || t == DFTAG_RI || t == DFTAG_CI || t == DFTAG_RI8 || t == DFTAG_CI8 || t == DFTAG_II8) {
             int32 idx = GRreftoindex(d_gr, (uint16)r);
             mark(DFTAG_RIG, r);
             if (idx != FAIL)
